@@ -593,8 +593,17 @@ def compiler_attr_facts(_: Any = None) -> dict:
         return out
 
     init_attrs = self_targets(fns["__init__"])
-    top = []
+    # compile() may delegate to a private method inside a try block (`try: return self._compile(...) except RecursionError: ...`)
+    body_fn = fns["compile"]
+    delegated = None
     for st in fns["compile"].body:
+        if isinstance(st, ast.Try) and len(st.body) == 1 and isinstance(st.body[0], ast.Return) and isinstance(st.body[0].value, ast.Call) \
+                and isinstance(st.body[0].value.func, ast.Attribute) and isinstance(st.body[0].value.func.value, ast.Name) \
+                and st.body[0].value.func.value.id == "self" and st.body[0].value.func.attr in fns:
+            delegated = st.body[0].value.func.attr
+            body_fn = fns[delegated]
+    top = []
+    for st in body_fn.body:
         if isinstance(st, ast.Expr) and isinstance(st.value, ast.Constant):
             continue                                   # docstring
         if isinstance(st, ast.Expr) and isinstance(st.value, ast.Call) and isinstance(st.value.func, ast.Attribute) \
@@ -606,12 +615,12 @@ def compiler_attr_facts(_: Any = None) -> dict:
             top += tg
         else:
             break
-    all_compile = sorted(set(self_targets(fns["compile"])))
+    all_compile = sorted(set(self_targets(fns["compile"])) | set(self_targets(body_fn)))
     # attributes mutated in place by compile (self.X.update / append)
-    inplace = sorted({n.func.value.attr for n in ast.walk(fns["compile"]) if isinstance(n, ast.Call) and isinstance(n.func, ast.Attribute)
+    inplace = sorted({n.func.value.attr for fn_ in (fns["compile"], body_fn) for n in ast.walk(fn_) if isinstance(n, ast.Call) and isinstance(n.func, ast.Attribute)
                       and n.func.attr in ("update", "append", "extend", "clear") and isinstance(n.func.value, ast.Attribute)
                       and isinstance(n.func.value.value, ast.Name) and n.func.value.value.id == "self"})
-    return {"init": sorted(set(init_attrs)), "top_of_compile": top, "assigned_in_compile": all_compile, "mutated_in_place": inplace}
+    return {"delegates_to": delegated, "init": sorted(set(init_attrs)), "top_of_compile": top, "assigned_in_compile": all_compile, "mutated_in_place": inplace}
 
 
 # ----------------------------------------------------------------------------------------------------------------------
